@@ -71,11 +71,14 @@ let split_at (k : int) (l : n list) : n list * n list =
 
 let run_stream_case guard (c : scase) =
   let stream = List.fold_left (fun tl h -> if h = "-" then tl else bytes_of_hex_onto h tl) [] c.shex in
-  let sched = parse_sched c.sched in
+  (* "X" = a Read failing with a non-ignorable error: the run ends there and readTlvStream returns that error *)
+  let broken = List.mem "X" (split_ws c.sched) in
+  let rec upto = function [] -> [] | "X" :: _ -> [] | x :: r -> x :: upto r in
+  let sched = parse_sched (String.concat " " (upto (split_ws c.sched))) in
   let (((res, frames), consumed), _st) = run guard stream sched in
   let msigs = List.map frame_sig frames in
   let isigs = List.concat_map split_ws (List.rev c.iframes) in
-  let mres = sres_str res and mcons = dec_of_n consumed in
+  let mres = if broken && res = SOk then "err:other" else sres_str res and mcons = dec_of_n consumed in
   let diverged = ref false in
   if mres <> c.ires then (diverged := true; Printf.printf "DIVERGE %s result model=%s impl=%s\n" c.id mres c.ires);
   if mcons <> c.icons then (diverged := true; Printf.printf "DIVERGE %s consumed model=%s impl=%s\n" c.id mcons c.icons);
@@ -98,7 +101,7 @@ let run_stream_case guard (c : scase) =
     let blocks = List.rev blocks in
     let (expect, _) = split_blocksN blocks (n_of_dec c.icons) in
     let esigs = List.map frame_sig expect in
-    if c.ires <> "ok" then
+    if c.ires <> "ok" && not (broken && c.ires = "err:other") then
       Printf.printf "ORACLE %s wf-stream-%s a well-formed stream made the framer stop with %s after %s bytes\n" c.id c.ires c.ires c.icons
     else if esigs <> isigs then begin
       let ne = List.length esigs and ni = List.length isigs in
